@@ -515,3 +515,12 @@ package core
 //@   assumed
 //@   option event SaveRegion
 //@   modifies ghost kvhas, ghost kvval
+
+// IsInJointState: no peer of the list is entering or leaving (roles IncomingVoter=2 / DemotingVoter=3); a nil peer counts
+// as a plain voter (nil-safe getter).
+//@ func IsInJointState
+//@   props C08
+//@   ensures [none-in-transition] !result ==> forall i :: {peers[i]} 0 <= i && i < len(peers) && peers[i] != nil ==> peers[i].Role != 2 && peers[i].Role != 3
+//@   ensures [some-in-transition] result ==> exists i :: 0 <= i && i < len(peers) && peers[i] != nil && (peers[i].Role == 2 || peers[i].Role == 3)
+//@   loop 1 invariant forall i :: {peers[i]} 0 <= i && i <= rangeindex && peers[i] != nil ==> peers[i].Role != 2 && peers[i].Role != 3
+//@   modifies nothing
